@@ -51,6 +51,7 @@ class State:
         s.head = {"delta": HeadInfo("delta", sym=True)}
         s.registry = {}     # kind -> list of hid
         s.pair = {}         # head -> inverse partner head
+        s.gpair = {}        # general (non-symmetric) square matrix head <-> its inverse head: G W = W G = I, orientation matters
         s.lndet = {}        # head -> (coef Fraction, head) : LnDet(head) = coef * head2
         s.diag = {}         # head -> vector head: head[...,a,b] = vec[...,a] * delta[a,b]
         s.stats = Counter()
@@ -948,6 +949,32 @@ def _matrix_axes(v, what):
     return A, B
 
 
+def ginverse(v, what="linalg.inv"):
+    """inverse of a general square matrix given as one (non-symmetric) atom, possibly transposed: a partner head GInv(h) with
+    GInv(h) h = h GInv(h) = I (no symmetry is assumed; products reduce only in the orientation of a matrix product)."""
+    v = as_val(v)
+    A, B = _matrix_axes(v, what)
+    nt = normalize(v)
+    if not (A and B) or len(nt) != 1 or len(nt[0][1].f) != 1 or not nt[0][0].is_const():
+        raise Undecided(f"{what}: inverse of a general matrix that is not a single tensor")
+    c, n = nt[0]
+    h, ix = n.f[0]
+    info = ST.head[h]
+    if info.kind != "atom" or len(ix) < 2 or set(ix[-2:]) != {A[0], B[0]} or len(set(ix)) != len(ix):
+        raise Undecided(f"{what}: inverse of a general matrix that is not a plain input tensor")
+    if info.sym:
+        return inverse(v, what)[0]
+    gh = ST.gpair.get(h)
+    if gh is None:
+        gh = f"GInv({h})"
+        ST.head[gh] = HeadInfo("GInvAtom")
+        ST.gpair[h] = gh
+        ST.gpair[gh] = h
+    axes, m = fresh_axes(v.axes)
+    # (W^-1)[a,b] at the positions of W[a,b];  for a transposed argument the result is transposed as well
+    return Val(axes, [(D(1) / c, Net([(gh, tuple(m.get(x, x) for x in ix))]))])
+
+
 def _strip_perm_conjugation(v, nt, A, B):
     """v = P X P' with P a permutation head acting on both matrix axes (same head, same orientation in every term):
     returns (X as a Val, head, slot position of the matrix index) or None."""
@@ -1231,6 +1258,23 @@ def simplify(coef, net, free):
                     changed = True
                     break
                 if changed:
+                    break
+            if changed:
+                break
+        if changed:
+            continue
+        # ---- general inverse pairs (no symmetry): (M1 M2)[a,c] with M1, M2 = W, GInv(W) in either order -> delta[a,c]
+        for i1, (h1, x1) in enumerate(f):
+            p = ST.gpair.get(h1)
+            if p is None or len(x1) < 2:
+                continue
+            for i2, (h2, x2) in enumerate(f):
+                if i2 == i1 or h2 != p or len(x2) != len(x1) or x1[:-2] != x2[:-2]:
+                    continue
+                s_ = x1[-1]
+                if s_ == x2[-2] and s_ not in free and cnt[s_] == 2 and x1[-2] != s_ and x2[-1] != s_:
+                    f = [g for k, g in enumerate(f) if k not in (i1, i2)] + [("delta", (x1[-2], x2[-1]))]
+                    changed = True
                     break
             if changed:
                 break
